@@ -669,6 +669,9 @@ theorem splitLinesAux_line (l : Bytes) (acc rest : Bytes) (h : noCRLF l = true) 
     rw [step, ih (x :: acc) hl]
     simp
 
+theorem splitLinesAux_ne_nil (acc d : Bytes) : splitLinesAux acc d ≠ [] := by
+  fun_induction splitLinesAux acc d <;> simp_all
+
 theorem splitLines_line (l rest : Bytes) (h : noCRLF l = true) :
     splitLines (l ++ crlf ++ rest) = l :: splitLines rest := by
   unfold splitLines
@@ -696,18 +699,30 @@ theorem encodeHeaders_lines (hs : List (Bytes × Bytes)) (rest : Bytes)
     rw [e, splitLines_line _ _ h1, ih (fun kv hkv => hok kv (List.mem_cons_of_mem _ hkv))]
     simp
 
+theorem head_header_line (k v : Bytes) (c : Nat) (hc : c ≠ 58) (h : k.head? ≠ some c) :
+    (k ++ [58] ++ v).head? ≠ some c := by
+  cases k with
+  | nil => simp; exact fun e => hc e.symm
+  | cons x xs => simpa using h
+
 theorem hostFromLines_headers (hs : List (Bytes × Bytes)) (tail : List Bytes)
-    (hk : ∀ kv ∈ hs, 58 ∉ kv.1) :
+    (hk : ∀ kv ∈ hs, 58 ∉ kv.1 ∧ kv.1.head? ≠ some 32 ∧ kv.1.head? ≠ some 9) :
     hostFromLines (hs.map (fun kv => kv.1 ++ [58] ++ kv.2) ++ [] :: tail) = hostSpec hs := by
   induction hs with
   | nil => simp [hostFromLines, hostSpec]
   | cons kv hs ih =>
     obtain ⟨k, v⟩ := kv
+    obtain ⟨h58, hsp, htab⟩ := hk (k, v) List.mem_cons_self
     have hc : cutByte 58 (k ++ [58] ++ v) = some (k, v) := by
-      have := cutByte_append 58 k v (hk (k, v) List.mem_cons_self)
+      have := cutByte_append 58 k v h58
       simpa using this
     simp only [List.map_cons, List.cons_append]
-    rw [hostFromLines, if_neg (by simp), hc]
+    rw [hostFromLines, if_neg (by simp),
+      if_neg (by
+        intro h
+        rcases h with h | h
+        · exact head_header_line k v 32 (by decide) hsp h
+        · exact head_header_line k v 9 (by decide) htab h), hc]
     simp only [hostSpec]
     rw [ih (fun kv hkv => hk kv (List.mem_cons_of_mem _ hkv))]
 
@@ -717,11 +732,11 @@ theorem httpMethods_eq : httpMethods = [[71,69,84],[80,79,83,84],[80,85,84],[80,
 theorem method_facts (m : Bytes) (hm : m ∈ httpMethods) :
     m.dropWhile isAsciiSpace = m ∧ m.reverse.dropWhile isAsciiSpace = m.reverse ∧ m ≠ [] ∧
     58 ∉ m ∧ 32 ∉ m ∧ m.length ≤ 11 ∧ (lower m).isPrefixOf [104, 111, 115, 116] = false ∧
-    (∃ c r, m = c :: r ∧ isPrintByte c = true) := by
+    (∃ c r, m = c :: r ∧ isPrintByte c = true ∧ c ≠ 32 ∧ c ≠ 9) := by
   rw [httpMethods_eq] at hm
   simp only [List.mem_cons, List.not_mem_nil, or_false] at hm
   rcases hm with rfl | rfl | rfl | rfl | rfl | rfl | rfl | rfl | rfl | rfl | rfl | rfl | rfl | rfl | rfl | rfl <;>
-    exact ⟨by decide, by decide, by decide, by decide, by decide, by decide, by decide, ⟨_, _, rfl, by decide⟩⟩
+    exact ⟨by decide, by decide, by decide, by decide, by decide, by decide, by decide, ⟨_, _, rfl, by decide, by decide, by decide⟩⟩
 
 theorem cutByte_prefix (sep : Nat) (a b k v : Bytes) (ha : sep ∉ a)
     (h : cutByte sep (a ++ b) = some (k, v)) : ∃ k', k = a ++ k' := by
@@ -774,7 +789,15 @@ theorem method_line_not_host (m t k v : Bytes) (hm : m ∈ httpMethods)
 
 theorem hostFromLines_reqline (m t : Bytes) (rest : List Bytes) (hm : m ∈ httpMethods) :
     hostFromLines ((m ++ 32 :: t) :: rest) = hostFromLines rest := by
-  rw [hostFromLines, if_neg (by simp)]
+  obtain ⟨_, _, _, _, _, _, _, c, r, hcr, _, hc32, hc9⟩ := method_facts m hm
+  have hhead : ¬ ((m ++ 32 :: t).head? = some 32 ∨ (m ++ 32 :: t).head? = some 9) := by
+    rw [hcr]
+    simp only [List.cons_append, List.head?_cons, Option.some.injEq]
+    intro h
+    rcases h with h | h
+    · exact hc32 h
+    · exact hc9 h
+  rw [hostFromLines, if_neg (by simp), if_neg hhead]
   cases hc : cutByte 58 (m ++ 32 :: t) with
   | none => rfl
   | some kv =>
@@ -787,7 +810,7 @@ theorem hostFromLines_reqline (m t : Bytes) (rest : List Bytes) (hm : m ∈ http
 theorem sniffHttp_encodeHead (h : HttpHead) (hwf : h.WF) :
     sniffHttp (encodeHead h) = hostSpec h.headers := by
   obtain ⟨hm, hreq, hhd⟩ := hwf
-  obtain ⟨_, _, hne, _, h32, hlen, _, c, r, hcr, hprint⟩ := method_facts h.method hm
+  obtain ⟨_, _, hne, _, h32, hlen, _, c, r, hcr, hprint, _, _⟩ := method_facts h.method hm
   have e0 : encodeHead h = h.method ++ 32 :: (h.target ++ crlf ++ encodeHeaders h.headers ++ crlf ++ h.body) := by
     simp [encodeHead, List.append_assoc]
   have hcut : cutByte 32 ((encodeHead h).take 12) = some (h.method, ((h.target ++ crlf ++ encodeHeaders h.headers ++ crlf ++ h.body)).take (11 - h.method.length)) := by
@@ -811,8 +834,10 @@ theorem sniffHttp_encodeHead (h : HttpHead) (hwf : h.WF) :
   rw [hcut]
   simp only []
   rw [if_pos (by simpa using hm)]
-  unfold sniffHTTPHostHeader
-  rw [hlines, hostFromLines_reqline _ _ _ hm, hostFromLines_headers _ _ (fun kv hkv => (hhd kv hkv).2)]
+  have hbody : splitLines h.body ≠ [] := splitLinesAux_ne_nil [] h.body
+  rw [hlines, List.dropLast_cons_of_ne_nil (by simp), List.dropLast_append_of_ne_nil (by simp),
+    List.dropLast_cons_of_ne_nil hbody,
+    hostFromLines_reqline _ _ _ hm, hostFromLines_headers _ _ (fun kv hkv => (hhd kv hkv).2)]
 
 
 /-! ## Soundness for any locator that only ever hands out bytes of `S` -/
@@ -1799,5 +1824,161 @@ theorem flow_in_order_aux (oracle : List Sealed) (ds : List Bytes) (f : Flow) (h
       rw [this, ← List.append_assoc, hout]
       simp
 
+
+/-! ## HTTP soundness -/
+
+theorem cutByte_some (sep : Nat) (l k v : Bytes) (h : cutByte sep l = some (k, v)) :
+    l = k ++ sep :: v ∧ sep ∉ k := by
+  induction l generalizing k with
+  | nil => simp [cutByte] at h
+  | cons x xs ih =>
+    unfold cutByte at h
+    split at h
+    · rename_i hx; cases h; subst hx; simp
+    · rename_i hx
+      split at h
+      · rename_i a b hc
+        cases h
+        obtain ⟨e, hn⟩ := ih a hc
+        refine ⟨by rw [e]; simp, ?_⟩
+        intro hm
+        rcases List.mem_cons.mp hm with h1 | h1
+        · exact hx h1.symm
+        · exact hn h1
+      · cases h
+
+theorem hostFromLines_sound (ls : List Bytes) (d : Bytes) (h : hostFromLines ls = .ok d) :
+    ∃ l ∈ ls, ∃ k v, l = k ++ 58 :: v ∧ 58 ∉ k ∧ l.head? ≠ some 32 ∧ l.head? ≠ some 9 ∧
+      isHostKey (trimSpace k) = true ∧ d = trimSpace v ∧ d ≠ [] := by
+  induction ls with
+  | nil => simp [hostFromLines] at h
+  | cons l ls ih =>
+    unfold hostFromLines at h
+    split at h
+    · cases h
+    split at h
+    · obtain ⟨l', hl', r⟩ := ih h
+      exact ⟨l', List.mem_cons_of_mem _ hl', r⟩
+    rename_i hsp
+    split at h
+    · obtain ⟨l', hl', r⟩ := ih h
+      exact ⟨l', List.mem_cons_of_mem _ hl', r⟩
+    · rename_i k v hc
+      obtain ⟨e, hn⟩ := cutByte_some 58 l k v hc
+      split at h
+      · rename_i hk
+        split at h
+        · cases h
+        · rename_i hne
+          cases h
+          exact ⟨l, List.mem_cons_self, k, v, e, hn, fun x => hsp (Or.inl x), fun x => hsp (Or.inr x), hk, rfl, hne⟩
+      · obtain ⟨l', hl', r⟩ := ih h
+        exact ⟨l', List.mem_cons_of_mem _ hl', r⟩
+
+theorem complete_line_position (acc b l : Bytes) (h : l ∈ (splitLinesAux acc b).dropLast) :
+    ∃ pre rest, acc.reverse ++ b = pre ++ l ++ crlf ++ rest ∧ (pre = [] ∨ ∃ p, pre = p ++ crlf) := by
+  fun_induction splitLinesAux acc b with
+  | case1 acc => simp at h
+  | case2 acc rest ih =>
+    rw [List.dropLast_cons_of_ne_nil (splitLinesAux_ne_nil [] rest)] at h
+    rcases List.mem_cons.mp h with rfl | h'
+    · exact ⟨[], rest, by simp [crlf], Or.inl rfl⟩
+    · obtain ⟨pre, rest', e, hp⟩ := ih h'
+      simp only [List.reverse_nil, List.nil_append] at e
+      refine ⟨acc.reverse ++ crlf ++ pre, rest', by rw [e]; simp [crlf], Or.inr ?_⟩
+      rcases hp with rfl | ⟨p, rfl⟩
+      · exact ⟨acc.reverse, by simp⟩
+      · exact ⟨acc.reverse ++ crlf ++ p, by simp⟩
+  | case3 acc x rest hne ih =>
+    obtain ⟨pre, rest', e, hp⟩ := ih h
+    exact ⟨pre, rest', by rw [← e]; simp, hp⟩
+
+theorem sniffHttp_sound (b d : Bytes) (h : sniffHttp b = .ok d) : HostLineIn b d := by
+  unfold sniffHttp at h
+  split at h
+  · cases h
+  split at h
+  · cases h
+  split at h
+  · cases h
+  split at h
+  · obtain ⟨l, hl, k, v, e, hn, h32, h9, hk, hd, hne⟩ := hostFromLines_sound _ d h
+    obtain ⟨pre, rest, eb, hp⟩ := complete_line_position [] _ l hl
+    simp only [List.reverse_nil, List.nil_append] at eb
+    subst e
+    exact ⟨pre, k, v, rest, eb, hp, hn, h32, h9, hk, hd, hne⟩
+  · cases h
+
+
+theorem sniffGroupTcp_sound (buf n : Bytes) (h : sniffGroupTcp buf = .ok n) : ReportedFrom buf n := by
+  unfold sniffGroupTcp at h
+  split at h
+  · rename_i d hd
+    cases h
+    exact ⟨d, rfl, Or.inl (sniffTls_sound buf d hd)⟩
+  · split at h
+    · rename_i d hd
+      cases h
+      exact ⟨d, rfl, Or.inr (sniffHttp_sound buf d hd)⟩
+    · cases h
+  · cases h
+
+theorem atEof_sound (buf : Bytes) (nm : Bool) (rest : List Ev) (n : Bytes)
+    (h : (atEof buf nm rest).result = .ok n) : ReportedFrom (atEof buf nm rest).buf n := by
+  unfold atEof at h ⊢
+  split at h
+  · cases h
+  · split at h
+    · cases h
+    · rename_i hne r hr
+      rw [if_neg hne]
+      exact sniffGroupTcp_sound buf n h
+
+theorem sniffLoop_sound (script : List Ev) (buf : Bytes) (nm : Bool) (n : Bytes)
+    (h : (sniffLoop buf nm script).result = .ok n) : ReportedFrom (sniffLoop buf nm script).buf n := by
+  induction script generalizing buf nm with
+  | nil => rw [sniffLoop] at h ⊢; exact atEof_sound _ _ _ _ h
+  | cons e rest ih =>
+    cases e with
+    | eof => rw [sniffLoop] at h ⊢; exact atEof_sound _ _ _ _ h
+    | stall => simp [sniffLoop] at h
+    | rst => simp [sniffLoop] at h
+    | data b =>
+      rw [sniffLoop] at h ⊢
+      split at h
+      · cases h
+      · rename_i hne
+        rw [if_neg hne]
+        split at h
+        · exact ih _ _ h
+        · exact sniffGroupTcp_sound _ n h
+
+theorem sniffLoop_buf_prefix (script : List Ev) (buf : Bytes) (nm : Bool) :
+    ∃ t, buf ++ clientBytes script = (sniffLoop buf nm script).buf ++ t := by
+  have := relay_sniffLoop script buf nm .writeTo
+  simp only [relayBytes] at this
+  have h1 := congrArg Prod.fst this
+  exact ⟨(drainConn (sniffLoop buf nm script).rest).1, h1.symm⟩
+
+theorem hostSpec_err (hs : List (Bytes × Bytes)) (e : Err) (h : hostSpec hs = .error e) : e = .notFound := by
+  induction hs with
+  | nil => simp [hostSpec] at h; exact h.symm
+  | cons kv hs ih =>
+    obtain ⟨k, v⟩ := kv
+    unfold hostSpec at h
+    split at h
+    · split at h
+      · cases h; rfl
+      · cases h
+    · exact ih h
+
+
+theorem helloComplete_handshake (ch : ClientHello) : helloComplete [⟨0, handshake ch⟩] = true := by
+  generalize hn : (helloBody ch).length = n
+  have e : handshake ch = 1 :: n / 65536 :: n / 256 % 256 :: n % 256 :: helloBody ch := by
+    simp [handshake, hn]
+  rw [e]
+  simp [helloComplete, hn]
+  omega
 
 end DaeVerif.C06
